@@ -317,21 +317,24 @@ theorem getD_map_str {α : Type} [Inhabited α] (l : List α) (f : α → String
   rw [List.getD_eq_getElem?_getD, List.getElem?_eq_getElem (by simpa using hk), Option.getD_some, List.getElem_map,
     List.getD_eq_getElem?_getD, List.getElem?_eq_getElem hk, Option.getD_some]
 
-/-- `diffCmds(a.sub, b.sub)` for one interface pair: afterwards every direction of the interface is
-bound as the target says (`settled`), or unbound if only the device had a binding (`cleared`). -/
-theorem sem_diffBinds {e : Env} (hwf : WFE e) {P : List Name} {d0 : Dev} (i : Nat) (x : String) (al bl : List Bind)
-    (hA : BindsA e d0 x al) (hB : BindsB e bl)
-    (hC : ∀ a ∈ al, ∀ b ∈ bl, a.dir = b.dir → Cmp e a.acl b.acl)
-    {st : St} {d : Dev} {σ : String → String → Status} {π : List (Nat × Nat)} (h : Sem e P d0 st d σ π)
-    (hπ : ∀ k, (i, k) ∉ π) (hσ : ∀ dir, σ x dir = .orig) :
-    ∃ d' σ' π', Sem e P d0 (diffBinds e st i x al bl) d' σ' π' ∧
-      (∀ y, y ≠ x → ∀ dir, σ' y dir = σ y dir) ∧
-      (∀ b ∈ bl, σ' x b.dir = .settled b.acl) ∧
-      (∀ a ∈ al, a.dir ∉ bl.map (·.dir) → σ' x a.dir = .cleared) ∧
-      (∀ dir, dir ∉ al.map (·.dir) → dir ∉ bl.map (·.dir) → σ' x dir = .orig) ∧
-      (∀ p ∈ π', p ∈ π ∨ p.1 = i) := by
+/-- `diffBinds` as three folds over items: device sub-commands without partner (`ks`, deleted), pairs of
+equal direction (`ps`, equalised), target sub-commands without partner (`bs`, added). -/
+theorem diffBinds_canon (e : Env) (i : Nat) (x : String) (al bl : List Bind)
+    (hAn : (al.map (·.dir)).Nodup) (hAd : ∀ bd ∈ al, isDir bd.dir = true) (hAc : ∀ bd ∈ al, e.a.hasAcl bd.acl = true)
+    (hB : BindsB e bl) (st : St) :
+    ∃ (st0 : St) (ks : List Nat) (ps : List (Nat × Bind)) (bs : List Bind),
+      (st0 = st ∨ st0 = st.hit "bind:no-parts-equal") ∧
+      diffBinds e st i x al bl =
+        (bs.foldl (addBind1 e x)
+          ((ps.foldl (fun st p => makeEqualBind e st i p.1 x (al.getD p.1 default) p.2)
+            (ks.foldl (delBind1 e i x al) st0)))) ∧
+      (∀ k ∈ ks, k < al.length ∧ (al.getD k default).dir ∉ bl.map (·.dir)) ∧ ks.Nodup ∧
+      (∀ p ∈ ps, p.1 < al.length ∧ (al.getD p.1 default).dir = p.2.dir ∧ p.2 ∈ bl) ∧ (ps.map (·.1)).Nodup ∧
+      (∀ k ∈ ks, k ∉ ps.map (·.1)) ∧ (∀ b ∈ bs, b ∈ bl ∧ b.dir ∉ al.map (·.dir)) ∧
+      (∀ k, k < al.length → (al.getD k default).dir ∉ bl.map (·.dir) → k ∈ ks) ∧
+      (∀ b ∈ bl, b ∈ bs ∨ ∃ k, (k, b) ∈ ps) := by
   -- keys
-  have hkeyA : ∀ bd ∈ al, bindKey e.a bd = "$REF " ++ bd.dir := fun bd hbd => by simp [bindKey, hA.closed bd hbd]
+  have hkeyA : ∀ bd ∈ al, bindKey e.a bd = "$REF " ++ bd.dir := fun bd hbd => by simp [bindKey, hAc bd hbd]
   have hkeyB : ∀ bd ∈ bl, bindKey e.b bd = "$REF " ++ bd.dir := fun bd hbd => by simp [bindKey, hB.closed bd hbd]
   obtain ⟨ka, hka⟩ : ∃ ka, ka = al.map (bindKey e.a) := ⟨_, rfl⟩
   obtain ⟨kb, hkb⟩ : ∃ kb, kb = bl.map (bindKey e.b) := ⟨_, rfl⟩
@@ -343,12 +346,12 @@ theorem sem_diffBinds {e : Env} (hwf : WFE e) {P : List Name} {d0 : Dev} (i : Na
     intro j hj; rw [hkb, getD_map_str bl _ j hj]; exact hkeyB _ (getD_mem bl j hj)
   have hkaNd : ka.Nodup := by
     rw [hka, List.Nodup, List.pairwise_map]
-    have := hA.dirsNd
+    have := hAn
     rw [List.Nodup, List.pairwise_map] at this
     apply List.Pairwise.imp_of_mem _ this
     intro a b ha hb hne hc
     rw [hkeyA a ha, hkeyA b hb] at hc
-    exact hne (key_inj (hA.dirs a ha) (hA.dirs b hb) hc)
+    exact hne (key_inj (hAd a ha) (hAd b hb) hc)
   -- membership in `kb` in terms of directions
   have hmemKb : ∀ dir, isDir dir = true → (("$REF " ++ dir) ∈ kb ↔ dir ∈ bl.map (·.dir)) := by
     intro dir hd
@@ -368,7 +371,7 @@ theorem sem_diffBinds {e : Env} (hwf : WFE e) {P : List Name} {d0 : Dev} (i : Na
     · intro hm
       obtain ⟨bd, hbd, hk⟩ := List.mem_map.mp hm
       rw [hkeyA bd hbd] at hk
-      exact List.mem_map.mpr ⟨bd, hbd, key_inj (hA.dirs bd hbd) hd hk⟩
+      exact List.mem_map.mpr ⟨bd, hbd, key_inj (hAd bd hbd) hd hk⟩
     · intro hm
       obtain ⟨bd, hbd, rfl⟩ := List.mem_map.mp hm
       exact List.mem_map.mpr ⟨bd, hbd, hkeyA bd hbd⟩
@@ -387,7 +390,7 @@ theorem sem_diffBinds {e : Env} (hwf : WFE e) {P : List Name} {d0 : Dev} (i : Na
     refine ⟨ht, ?_⟩
     have := lastIdx_none.mp hl
     rw [hkaG t ht] at this
-    exact fun hc => this ((hmemKb _ (hA.dirs _ (getD_mem al t ht))).mpr hc)
+    exact fun hc => this ((hmemKb _ (hAd _ (getD_mem al t ht))).mpr hc)
   have hEmem : ∀ p ∈ E, p.1 < al.length ∧ p.2 < bl.length ∧ (al.getD p.1 default).dir = (bl.getD p.2 default).dir := by
     intro p hp
     rw [hE] at hp
@@ -399,7 +402,7 @@ theorem sem_diffBinds {e : Env} (hwf : WFE e) {P : List Name} {d0 : Dev} (i : Na
     rw [h1]
     refine ⟨ht, hj, ?_⟩
     rw [hkbG _ hj, hkaG t ht] at hjk
-    exact (key_inj (hB.dirs _ (getD_mem bl _ hj)) (hA.dirs _ (getD_mem al t ht)) hjk).symm
+    exact (key_inj (hB.dirs _ (getD_mem bl _ hj)) (hAd _ (getD_mem al t ht)) hjk).symm
   have hImem : ∀ j ∈ I, j < bl.length ∧ (bl.getD j default).dir ∉ al.map (·.dir) := by
     intro j hj
     rw [hI] at hj
@@ -418,7 +421,7 @@ theorem sem_diffBinds {e : Env} (hwf : WFE e) {P : List Name} {d0 : Dev} (i : Na
     rw [hD]
     refine mem_sDel.mpr ⟨k, by rw [hkaL]; exact hk, by omega, lastIdx_none.mpr ?_⟩
     rw [hkaG k hk]
-    exact fun hc => hn ((hmemKb _ (hA.dirs _ (getD_mem al k hk))).mp hc)
+    exact fun hc => hn ((hmemKb _ (hAd _ (getD_mem al k hk))).mp hc)
   have hcovB : ∀ j, j < bl.length → (j ∈ I ∨ ∃ k, (k, j) ∈ E) := by
     intro j hj
     by_cases hc : (bl.getD j default).dir ∈ al.map (·.dir)
@@ -452,107 +455,117 @@ theorem sem_diffBinds {e : Env} (hwf : WFE e) {P : List Name} {d0 : Dev} (i : Na
       rw [hkbG j hj, Bool.eq_false_iff]
       intro hcc
       exact hc ((hmemKa _ (hB.dirs _ (getD_mem bl j hj))).mp (by simpa using hcc))
-  -- the computation as three folds over items
-  have hcomp : ∃ (st0 : St) (ks : List Nat) (ps : List (Nat × Bind)) (bs : List Bind),
-      (st0 = st ∨ st0 = st.hit "bind:no-parts-equal") ∧
-      diffBinds e st i x al bl =
-        (bs.foldl (addBind1 e x)
-          ((ps.foldl (fun st p => makeEqualBind e st i p.1 x (al.getD p.1 default) p.2)
-            (ks.foldl (delBind1 e i x al) st0)))) ∧
-      (∀ k ∈ ks, k < al.length ∧ (al.getD k default).dir ∉ bl.map (·.dir)) ∧ ks.Nodup ∧
-      (∀ p ∈ ps, p.1 < al.length ∧ (al.getD p.1 default).dir = p.2.dir ∧ p.2 ∈ bl) ∧ (ps.map (·.1)).Nodup ∧
-      (∀ k ∈ ks, k ∉ ps.map (·.1)) ∧ (∀ b ∈ bs, b ∈ bl) ∧
-      (∀ k, k < al.length → (al.getD k default).dir ∉ bl.map (·.dir) → k ∈ ks) ∧
-      (∀ b ∈ bl, b ∈ bs ∨ ∃ k, (k, b) ∈ ps) := by
-    have hkAll : ∀ r ∈ rsA ++ rsB, (kindOf al.length bl.length r).isSome = true := by
+  have hkAll : ∀ r ∈ rsA ++ rsB, (kindOf al.length bl.length r).isSome = true := by
+    intro r hr
+    rcases List.mem_append.mp hr with h1 | h1
+    · rcases hkA r h1 with h2 | h2 <;> simp [h2]
+    · simp [hkB r h1]
+  have hfDall : fDel (rsA ++ rsB) = D := by
+    have : fDel rsB = [] := by
+      simp only [fDel, List.flatMap_eq_nil_iff]
       intro r hr
-      rcases List.mem_append.mp hr with h1 | h1
-      · rcases hkA r h1 with h2 | h2 <;> simp [h2]
-      · simp [hkB r h1]
-    have hfDall : fDel (rsA ++ rsB) = D := by
-      have : fDel rsB = [] := by
-        simp only [fDel, List.flatMap_eq_nil_iff]
-        intro r hr
-        simp [(tests_ins (hkB r hr)).1]
-      simp only [fDel, List.flatMap_append] at this ⊢
-      rw [this, List.append_nil]; exact hfD.trans hD.symm
-    by_cases hany : ((rsA ++ rsB).any fun r => r.isEqual) = true
-    · refine ⟨st, D, E.map fun p => (p.1, bl.getD p.2 default), I.map fun j => bl.getD j default, Or.inl rfl, ?_,
-        hDmem, by rw [hD]; exact nodup_sDel .., ?_, ?_, ?_, ?_, hcovA, ?_⟩
-      · unfold diffBinds
-        simp only [← hka, ← hkb, hrs, hany, Bool.not_true, Bool.false_eq_true, ↓reduceIte]
-        rw [phase1_fold e i x al bl.length (rsA ++ rsB) hkAll, hfDall, List.foldl_append,
-          phase2_foldA e i x al bl rsA hkA, phase2_foldB e i x al bl rsB hkB, hfE, hfI, ← hE, ← hI]
-      · intro p hp
-        obtain ⟨q, hq, rfl⟩ := List.mem_map.mp hp
-        obtain ⟨h1, h2, h3⟩ := hEmem q hq
-        exact ⟨h1, h3, getD_mem bl _ h2⟩
-      · rw [List.map_map]
-        have : ((fun p : Nat × Bind => p.1) ∘ fun p : Nat × Nat => (p.1, bl.getD p.2 default)) = (·.1) := rfl
-        rw [this, hE]; exact nodup_sEq_fst ..
-      · intro k hk hc
-        rw [List.map_map] at hc
-        have : ((fun p : Nat × Bind => p.1) ∘ fun p : Nat × Nat => (p.1, bl.getD p.2 default)) = (·.1) := rfl
-        rw [this] at hc
-        rw [hD] at hk; rw [hE] at hc
-        exact sDel_sEq_disjoint hk hc
-      · intro b hb
-        obtain ⟨j, hj, rfl⟩ := List.mem_map.mp hb
-        exact getD_mem bl j (hImem j hj).1
-      · intro b hb
-        obtain ⟨j, hj, hjb⟩ := List.getElem_of_mem hb
-        have hgj : bl.getD j default = b := by
-          rw [List.getD_eq_getElem?_getD, List.getElem?_eq_getElem hj, Option.getD_some, hjb]
-        rcases hcovB j hj with h1 | ⟨k, h1⟩
-        · left; exact List.mem_map.mpr ⟨j, h1, hgj⟩
-        · right; exact ⟨k, List.mem_map.mpr ⟨(k, j), h1, by rw [hgj]⟩⟩
-    · -- nothing in common: everything deleted, everything added
-      have hEnil : E = [] := by
-        cases hE' : E with
-        | nil => rfl
-        | cons p ps =>
-          exfalso
-          apply hany
-          have hp : p ∈ fEq (rsA ++ rsB) := by
-            simp only [fEq, List.flatMap_append, List.mem_append]
-            left
-            have : p ∈ fEq rsA := by rw [hfE, ← hE, hE']; exact List.mem_cons_self ..
-            exact this
-          exact any_isEqual_of_fEq hkAll hp
-      have hnocommon : ∀ k, k < al.length → (al.getD k default).dir ∉ bl.map (·.dir) := by
-        intro k hk hc
-        have hkey : ka.getD k "" ∈ kb := by
-          rw [hkaG k hk]; exact (hmemKb _ (hA.dirs _ (getD_mem al k hk))).mpr hc
-        cases hl : lastIdx (ka.getD k "") kb with
-        | none => exact absurd hkey (lastIdx_none.mp hl)
-        | some j =>
-          have : (k, j) ∈ E := by
-            rw [hE]; exact mem_sEq.mpr ⟨k, by rw [hkaL]; exact hk, by omega, hl⟩
-          rw [hEnil] at this; cases this
-      refine ⟨if al.isEmpty then st else st.hit "bind:no-parts-equal", List.range al.length, [], bl, ?_, ?_,
-        fun k hk => ⟨List.mem_range.mp hk, hnocommon k (List.mem_range.mp hk)⟩, List.nodup_range, by simp, by simp,
-        by simp, fun b hb => hb, fun k hk _ => List.mem_range.mpr hk, fun b hb => Or.inl hb⟩
-      · split
-        · exact Or.inl rfl
-        · exact Or.inr rfl
-      · unfold diffBinds
-        simp only [← hka, ← hkb, hrs, hany, Bool.not_false, ↓reduceIte, List.foldl_nil]
-        by_cases hal : al.isEmpty = true
-        · have : al = [] := List.isEmpty_iff.mp hal
-          subst this
-          simp only [List.isEmpty_nil, ↓reduceIte, List.length_nil, List.range_zero, List.foldl_nil]
-          split
-          · rename_i hbl
-            have : bl = [] := List.isEmpty_iff.mp hbl
-            subst this; rfl
-          · rfl
-        · simp only [hal, Bool.false_eq_true, ↓reduceIte, delBinds]
-          split
-          · rename_i hbl
-            have : bl = [] := List.isEmpty_iff.mp hbl
-            subst this; rfl
-          · rfl
-  obtain ⟨st0, ks, ps, bs, hst0, hcompEq, hks, hksNd, hps, hpsNd, hdisj, hbs, hcovK, hcovBl⟩ := hcomp
+      simp [(tests_ins (hkB r hr)).1]
+    simp only [fDel, List.flatMap_append] at this ⊢
+    rw [this, List.append_nil]; exact hfD.trans hD.symm
+  by_cases hany : ((rsA ++ rsB).any fun r => r.isEqual) = true
+  · refine ⟨st, D, E.map fun p => (p.1, bl.getD p.2 default), I.map fun j => bl.getD j default, Or.inl rfl, ?_,
+      hDmem, by rw [hD]; exact nodup_sDel .., ?_, ?_, ?_, ?_, hcovA, ?_⟩
+    · unfold diffBinds
+      simp only [← hka, ← hkb, hrs, hany, Bool.not_true, Bool.false_eq_true, ↓reduceIte]
+      rw [phase1_fold e i x al bl.length (rsA ++ rsB) hkAll, hfDall, List.foldl_append,
+        phase2_foldA e i x al bl rsA hkA, phase2_foldB e i x al bl rsB hkB, hfE, hfI, ← hE, ← hI]
+    · intro p hp
+      obtain ⟨q, hq, rfl⟩ := List.mem_map.mp hp
+      obtain ⟨h1, h2, h3⟩ := hEmem q hq
+      exact ⟨h1, h3, getD_mem bl _ h2⟩
+    · rw [List.map_map]
+      have : ((fun p : Nat × Bind => p.1) ∘ fun p : Nat × Nat => (p.1, bl.getD p.2 default)) = (·.1) := rfl
+      rw [this, hE]; exact nodup_sEq_fst ..
+    · intro k hk hc
+      rw [List.map_map] at hc
+      have : ((fun p : Nat × Bind => p.1) ∘ fun p : Nat × Nat => (p.1, bl.getD p.2 default)) = (·.1) := rfl
+      rw [this] at hc
+      rw [hD] at hk; rw [hE] at hc
+      exact sDel_sEq_disjoint hk hc
+    · intro b hb
+      obtain ⟨j, hj, rfl⟩ := List.mem_map.mp hb
+      exact ⟨getD_mem bl j (hImem j hj).1, (hImem j hj).2⟩
+    · intro b hb
+      obtain ⟨j, hj, hjb⟩ := List.getElem_of_mem hb
+      have hgj : bl.getD j default = b := by
+        rw [List.getD_eq_getElem?_getD, List.getElem?_eq_getElem hj, Option.getD_some, hjb]
+      rcases hcovB j hj with h1 | ⟨k, h1⟩
+      · left; exact List.mem_map.mpr ⟨j, h1, hgj⟩
+      · right; exact ⟨k, List.mem_map.mpr ⟨(k, j), h1, by rw [hgj]⟩⟩
+  · -- nothing in common: everything deleted, everything added
+    have hEnil : E = [] := by
+      cases hE' : E with
+      | nil => rfl
+      | cons p ps =>
+        exfalso
+        apply hany
+        have hp : p ∈ fEq (rsA ++ rsB) := by
+          simp only [fEq, List.flatMap_append, List.mem_append]
+          left
+          have : p ∈ fEq rsA := by rw [hfE, ← hE, hE']; exact List.mem_cons_self ..
+          exact this
+        exact any_isEqual_of_fEq hkAll hp
+    have hnocommon : ∀ k, k < al.length → (al.getD k default).dir ∉ bl.map (·.dir) := by
+      intro k hk hc
+      have hkey : ka.getD k "" ∈ kb := by
+        rw [hkaG k hk]; exact (hmemKb _ (hAd _ (getD_mem al k hk))).mpr hc
+      cases hl : lastIdx (ka.getD k "") kb with
+      | none => exact absurd hkey (lastIdx_none.mp hl)
+      | some j =>
+        have : (k, j) ∈ E := by
+          rw [hE]; exact mem_sEq.mpr ⟨k, by rw [hkaL]; exact hk, by omega, hl⟩
+        rw [hEnil] at this; cases this
+    refine ⟨if al.isEmpty then st else st.hit "bind:no-parts-equal", List.range al.length, [], bl, ?_, ?_,
+      fun k hk => ⟨List.mem_range.mp hk, hnocommon k (List.mem_range.mp hk)⟩, List.nodup_range, by simp, by simp,
+      by simp, fun b hb => ⟨hb, fun hc => by
+        obtain ⟨a, ha, had⟩ := List.mem_map.mp hc
+        obtain ⟨k, hk, hka'⟩ := List.getElem_of_mem ha
+        have hgk : al.getD k default = a := by
+          rw [List.getD_eq_getElem?_getD, List.getElem?_eq_getElem hk, Option.getD_some, hka']
+        exact hnocommon k hk (by rw [hgk, had]; exact List.mem_map_of_mem hb)⟩,
+      fun k hk _ => List.mem_range.mpr hk, fun b hb => Or.inl hb⟩
+    · split
+      · exact Or.inl rfl
+      · exact Or.inr rfl
+    · unfold diffBinds
+      simp only [← hka, ← hkb, hrs, hany, Bool.not_false, ↓reduceIte, List.foldl_nil]
+      by_cases hal : al.isEmpty = true
+      · have : al = [] := List.isEmpty_iff.mp hal
+        subst this
+        simp only [List.isEmpty_nil, ↓reduceIte, List.length_nil, List.range_zero, List.foldl_nil]
+        split
+        · rename_i hbl
+          have : bl = [] := List.isEmpty_iff.mp hbl
+          subst this; rfl
+        · rfl
+      · simp only [hal, Bool.false_eq_true, ↓reduceIte, delBinds]
+        split
+        · rename_i hbl
+          have : bl = [] := List.isEmpty_iff.mp hbl
+          subst this; rfl
+        · rfl
+
+/-- `diffCmds(a.sub, b.sub)` for one interface pair: afterwards every direction of the interface is
+bound as the target says (`settled`), or unbound if only the device had a binding (`cleared`). -/
+theorem sem_diffBinds {e : Env} (hwf : WFE e) {P : List Name} {d0 : Dev} (i : Nat) (x : String) (al bl : List Bind)
+    (hA : BindsA e d0 x al) (hB : BindsB e bl)
+    (hC : ∀ a ∈ al, ∀ b ∈ bl, a.dir = b.dir → Cmp e a.acl b.acl)
+    {st : St} {d : Dev} {σ : String → String → Status} {π : List (Nat × Nat)} (h : Sem e P d0 st d σ π)
+    (hπ : ∀ k, (i, k) ∉ π) (hσ : ∀ dir, σ x dir = .orig) :
+    ∃ d' σ' π', Sem e P d0 (diffBinds e st i x al bl) d' σ' π' ∧
+      (∀ y, y ≠ x → ∀ dir, σ' y dir = σ y dir) ∧
+      (∀ b ∈ bl, σ' x b.dir = .settled b.acl) ∧
+      (∀ a ∈ al, a.dir ∉ bl.map (·.dir) → σ' x a.dir = .cleared) ∧
+      (∀ dir, dir ∉ al.map (·.dir) → dir ∉ bl.map (·.dir) → σ' x dir = .orig) ∧
+      (∀ p ∈ π', p ∈ π ∨ p.1 = i) := by
+  obtain ⟨st0, ks, ps, bs, hst0, hcompEq, hks, hksNd, hps, hpsNd, hdisj, hbs', hcovK, hcovBl⟩ :=
+    diffBinds_canon e i x al bl hA.dirsNd hA.dirs hA.closed hB st
+  have hbs : ∀ b ∈ bs, b ∈ bl := fun b hb => (hbs' b hb).1
   have h0 : Sem e P d0 st0 d σ π := by
     rcases hst0 with rfl | rfl
     · exact h
